@@ -198,6 +198,8 @@ def handler(st, opts):
     try:
         if track == "x": tt.grad.watch(X); leaves = list(xl)
         elif track == "x0": tt.grad.watch(X, [0]); leaves = [xl[0]]
+        elif track == "xl": tt.grad.watch(X, [len(xl) - 1]); leaves = [xl[-1]]
+        elif track == "xr": tt.grad.watch(X, [len(xl) - 1, 0]); leaves = [xl[-1], xl[0]]
         elif track == "y": tt.grad.watch(Y); leaves = list(yl)
         elif track == "wx": tt.grad.watch_list([W, X]); leaves = list(wl) + list(xl)
         else: tt.grad.watch_list([X, Y]); leaves = list(xl) + list(yl)
@@ -209,6 +211,8 @@ def handler(st, opts):
             return {"problems": problems, "stats": stats}
         if track == "x": got = tt.grad.grad(val, X)
         elif track == "x0": got = tt.grad.grad(val, X, [0])
+        elif track == "xl": got = tt.grad.grad(val, X, [len(xl) - 1])
+        elif track == "xr": got = tt.grad.grad(val, X, [len(xl) - 1, 0])
         elif track == "y": got = tt.grad.grad(val, Y)
         elif track == "wx": got = tt.grad.grad_list(val, [W, X])
         else: got = tt.grad.grad_list(val, [X, Y])
@@ -219,7 +223,7 @@ def handler(st, opts):
     yd = [t.detach().clone().requires_grad_(True) for t in c.y]
     wd = [t.detach().clone().requires_grad_(True) for t in c.w] if c.w is not None else None
     vd = eval_dense(c, xd, yd, body, head, red, wd)
-    dl = {"x": xd, "x0": [xd[0]], "y": yd, "xy": xd + yd, "wx": (wd or []) + xd}[track]
+    dl = {"x": xd, "x0": [xd[0]], "xl": [xd[-1]], "xr": [xd[-1], xd[0]], "y": yd, "xy": xd + yd, "wx": (wd or []) + xd}[track]
     ref = torch.autograd.grad(vd, dl, allow_unused=True)
     vscale = max(abs(vd.item()), 1e-300) if S.get("scale", "unit") == "tiny" else max(1.0, abs(vd.item()))
     if abs(val.item() - vd.item()) > 1e-9 * vscale + 1e-20:        # (1e-20: cancellation noise floor for leaves of magnitude 1e-8)
@@ -250,7 +254,7 @@ def handler(st, opts):
             for sgn in (+1, -1):
                 xl2 = [t.detach().clone() for t in xl]; yl2 = [t.detach().clone() for t in yl]
                 wl2 = [t.detach().clone() for t in wl] if wl is not None else None
-                tgt = (wl2 if track == "wx" else (xl2 if track in ("x", "x0", "xy") else yl2))[0]
+                tgt = (wl2 if track == "wx" else (xl2 if track in ("x", "x0", "xy") else yl2))[0] if track not in ("xl", "xr") else xl2[-1]
                 tgt.reshape(-1)[e] += sgn * h
                 with torch.no_grad():
                     vals.append(eval_tt(tt, c, tt.TT(xl2), tt.TT(yl2), body, head, red, tt.TT(wl2) if wl2 is not None else None).item())
